@@ -80,22 +80,36 @@ inline bool word_accepted(unsigned long w, unsigned long m) {
 	unsigned __int128 lim = (W / m) * m;
 	return (unsigned __int128)w < lim;
 }
-// a raw word that reduces to c modulo m, spread over the whole accepted range
+// does the real bounded sampler take the raw word w as its first word for modulus m (probe; m >= 2)?
+inline bool impl_accepts(unsigned long m, unsigned long w) {
+	coin_script().clear(); script_ulong(w);
+	coin_log().clear(); coin_logging() = true;
+	(void)tmcg_mpz_srandom_mod(m);
+	coin_logging() = false;
+	size_t used = coin_log().size(); coin_log().clear(); coin_script().clear();
+	return used == 8;
+}
+// a raw word that reduces to c modulo m and that the implementation accepts (so the sweeps over "all coin vectors"
+// do not depend on WHICH unbiased acceptance set the sampler uses), spread over the whole range
 inline unsigned long word_for(unsigned long c, unsigned long m) {
 	unsigned __int128 W = (unsigned __int128)1 << 64;
 	unsigned long kmax = (unsigned long)(W / m);           // number of accepted words per residue
-	unsigned long k;
-	switch (gen().below(4)) { case 0: k = 0; break; case 1: k = kmax - 1; break; default: k = gen().below(kmax); }
-	return (unsigned long)((unsigned __int128)k * m + c);
+	unsigned long w = c;
+	for (int tries = 0; tries < 64; tries++) {
+		unsigned long k;
+		switch (gen().below(4)) { case 0: k = 0; break; case 1: k = kmax - 1; break; default: k = gen().below(kmax); }
+		w = (unsigned long)((unsigned __int128)k * m + c);
+		if (impl_accepts(m, w)) return w;
+	}
+	return w;
 }
-// a raw word the sampler must reject for modulus m (none exists when m divides 2^64): returns false then
+// a raw word the sampler rejects for modulus m (none may exist): returns false then
 inline bool rejected_word(unsigned long m, unsigned long &w) {
 	unsigned __int128 W = (unsigned __int128)1 << 64;
 	unsigned __int128 lim = (W / m) * m;
-	if (lim == W) return false;
-	unsigned long span = (unsigned long)(W - lim);
-	w = (unsigned long)(lim + (gen().coin() ? 0 : gen().below(span)));
-	return true;
+	unsigned long cand[3] = { (unsigned long)(lim == W ? 0 : lim + (gen().coin() ? 0 : gen().below((unsigned long)(W - lim)))), 0UL, ~0UL };
+	for (unsigned long x : cand) if (!impl_accepts(m, x)) { w = x; return true; }
+	return false;
 }
 
 // result of one real TMCG_CreateStackSecret call
